@@ -56,12 +56,19 @@ def explore(strategy, judge, rec, *, max_examples, seed, shrink=True, max_keys=3
     that key so Hypothesis shrinks it; the minimal case replaces the first one recorded.
     """
     t0 = time.time()
-    state = {"stop": False}
+    # Hypothesis always starts with the simplest example of a strategy (every choice its first alternative, every number zero). With a
+    # budget of a handful of cases that one example would be a large share of what is judged - the same share in every run - so small
+    # budgets generate one case more and pass over the first.
+    skip = 1 if max_examples < 10 else 0
+    state = {"stop": False, "seen": 0}
 
     @hseed(seed)
-    @_settings(max_examples, False)
+    @_settings(max_examples + skip, False)
     @given(strategy)
     def collect(case):
+        state["seen"] += 1
+        if state["seen"] <= skip:
+            return
         if state["stop"]:
             return
         if wall_s is not None and time.time() - t0 > wall_s:
